@@ -12,7 +12,7 @@ import (
 var upperPool = []string{"Str", "ID", "X", "AWSRoleARNs", "Int32", "Name", "Spec", "Meta", "Value", "Kind", "URL", "TTL",
 	"Opts", "V2", "Data", "Labels", "A", "MaxAge", "HTTPPort", "Nested", "List", "Map", "Mode", "Expires", "B", "Cfg"}
 var lowerPool = []string{"str", "id", "x", "lower_snake", "with2_digits3", "name", "max_age", "b", "foo", "bar",
-	"labels", "http_port", "value", "kind", "a", "created_at", "ttl", "data"}
+	"labels", "http_port", "value", "kind", "a", "created_at", "ttl", "data", "type", "range", "default", "key"}
 
 var upperSeg = rapid.Custom(func(t *rapid.T) string {
 	return rapid.StringMatching(`[A-Z]{1,3}[a-z]{0,4}[0-9]{0,2}`).Draw(t, "useg")
